@@ -153,7 +153,7 @@ func setNode(root any, p Node, nv any, del bool) (any, bool) {
 }
 
 // MutationKinds lists all mutation kinds.
-var MutationKinds = []string{"tweak", "null", "retype", "drop", "rename", "add", "dupelem", "swap", "empty"}
+var MutationKinds = []string{"tweak", "null", "retype", "drop", "rename", "add", "dupelem", "swap", "empty", "recase"}
 
 // ApplyMutation returns a mutated deep copy of v, or ok=false when the kind does not apply to
 // the node (or would not change the value).
@@ -247,6 +247,38 @@ func ApplyMutation(v any, p Node, kind string) (any, bool) {
 			return nil, false
 		}
 		m[k+"_x"] = m[k]
+		delete(m, k)
+		return root, true
+	case "recase":
+		// the member's name with the case of its first letter changed (signed -> Signed): another name
+		if len(p) == 0 {
+			return nil, false
+		}
+		k, ok := p[len(p)-1].(string)
+		if !ok {
+			return nil, false
+		}
+		nk := []byte(k)
+		changed := false
+		for i, c := range nk {
+			if c >= 'a' && c <= 'z' {
+				nk[i], changed = c-32, true
+				break
+			}
+			if c >= 'A' && c <= 'Z' {
+				nk[i], changed = c+32, true
+				break
+			}
+		}
+		if !changed {
+			return nil, false
+		}
+		parent, _ := GetNode(root, p[:len(p)-1])
+		m := parent.(map[string]any)
+		if _, exists := m[string(nk)]; exists {
+			return nil, false
+		}
+		m[string(nk)] = m[k]
 		delete(m, k)
 		return root, true
 	case "add":
